@@ -5,7 +5,20 @@ ROOT = os.path.dirname(os.path.dirname(os.path.abspath(__file__)))
 ALL = ["C%02d" % i for i in range(1, 19)]
 
 # id -> (technique, level text, level note, design ref)
+PROG_NOTE = "Trusted: the Go compiler as reference semantics (same statement text on verif/refco), the mini-language printers in /verif/gen, the log comparison in /verif/harness. Programs outside the enumerated grammar/size, answer vectors deeper than D and more than one injected panic per execution are not covered. The final generated files that are executed come from the unmodified rewriter.Compile run from a non-test binary."
 CHECKS = {
+ "C01": ("bounded-exhaustive program enumeration + stateless DFS over environment answers, real go-co output vs Go-on-coroutine reference (projection: delivered values, count, order, exhaustion)",
+         "Every generator body of the control-flow grammar up to the size bound (quick: full alphabet of 29 statement forms to size 2, five-compound alphabet to size 3, regression corpus; thorough: full alphabet to size 3 = 37k programs, core alphabet size 4 = 122k programs) is compiled by the real compiler and explored under every answer vector of its branch/loop conditions up to depth D (6/10) with fuel F (48/96); the sequence of (MoveNext result, Current) records and the point of exhaustion must equal those of the same statement text executed by Go itself on a goroutine-backed coroutine. Infinite generators are compared on every prefix up to the fuel.",
+         PROG_NOTE, "DESIGN.md 1.1-1.6, section 2 C01"),
+ "C02": ("bounded-exhaustive program enumeration + stateless DFS over environment answers, comparison of complete marked event logs (which effect ran inside which consumer call)",
+         "Same exploration as C01, but the oracle is equality of the whole marked log: no event between the call of the generator function and the first MoveNext, inside each MoveNext window exactly the reference's condition evaluations, effects and the evaluation of the yielded expression in source order, nothing after the last advance, and two extra advances after exhaustion run nothing. Because the code is sequential, the full log decides every consumer truncation point at once.",
+         PROG_NOTE, "DESIGN.md 1.2, section 2 C02"),
+ "C11": ("bounded-exhaustive program enumeration through the real compiler entry point; per-program verdict accepted / panics / output does not build",
+         "Every type-correct program of the control-flow grammar at the tier's sizes is compiled in batches by the unmodified rewriter.Compile from a non-test binary under a 10 minute watchdog; a panic is isolated to the offending program with the verif hook (per-file recover) and the generated package is built with go build -gcflags=-e without the co tag; every rejected or unbuildable program is reduced to a root and reported.",
+         "Trusted: the generator emits only constructs of the README's supported table; go build as type checker. Import/file configurations and the other families are added as those checks land.", "DESIGN.md 1.3, section 2 C11"),
+ "C18": ("bounded-exhaustive fault enumeration: one injected panic at every logged event of every explored path of every enumerated program, real output vs reference coroutine",
+         "For every explored path of every enumerated program the execution is repeated once per logged event with a panic raised by that event (inside loop conditions, post statements, case bodies, delegates, yielded expressions); the consumer call the panic comes out of, the panic value and the values delivered before it must equal the reference's.",
+         PROG_NOTE + " One panic per execution; Send-driven consumers are covered at runtime level by C08.", "DESIGN.md 1.2, section 2 C18"),
  "C08": ("exhaustive enumeration of combinator terms x consumer strings x condition answers x injected panics on the real seq runtime vs a direct structured-loop interpreter",
          "All combinator terms up to size 4 (quick: 2.5k terms) / size 5 plus MoveNext-only size 6 (thorough) are built with the real seq API from logging closures; for each term a stateless DFS explores every answer vector of the loop conditions to depth 4, every consumer string over {MoveNext, Send} of length 4 (plus two long ones), a panic injected at every logged event, and a second Start of the same Seq value. The marked log (which thunk/cond/post ran inside which consumer call, yielded values, result, panic site) must equal the log written by a direct interpreter for structured loops; Combine associativity/units and Delay transparency are additionally checked implementation-against-implementation.",
          "Trusted: the interpreter exec8 and consumer model in rtcheck/c08.go. Terms that spin without an event are pruned (no finite observation). Terms above the size bound are not covered; the property mentions random larger terms - sampling is outside this technique and is not done.",
